@@ -127,6 +127,42 @@ def rule_b(ctx):
             r.ok("forwarded_map|prefix-before-limit")
         else:
             r.violate("forwarded_map|prefix-before-limit", "the show/hide view must be applied on top of the prefixed view", b.loc())
+    # the map is handed back unwrapped only when there is no show list at all: an *empty* show list hides every member
+    from .. import psa as _psa
+
+    def classify(kind, obj, body, sw):
+        if kind == "call" and an.tail2(obj.callee) in ("Option::is_none", "Option::is_some") and obj.args:
+            a = an.trace_operand(body, obj.args[0])
+            if a.root == ("arg", 3) and not a.proj:
+                return _psa.Pred(("SHOW_NONE",), []), an.tail2(obj.callee) == "Option::is_some"
+        if kind == "discr":
+            ap, rv_ = obj
+            if ap.root == ("arg", 3) and not [x for x in ap.proj if x != "<discr>"]:
+                return _psa.Pred(("SHOW_NONE",), [], variant_true="None"), False
+        return None
+
+    rets = []
+    for bb, i, pl, rv, st in b.assignments():
+        if pl.local == 0 and not pl.proj and rv["k"] in ("use", "cast") and "p" in rv["op"]:
+            rets.append(bb)
+    # ... and the safelist wrapper is applied on every path where the list is Some
+    wrapped_key = "forwarded_map|unwrapped-only-without-show-list"
+    okw = True
+    for bb in rets:
+        vals, complete = _psa.valuations_at(b, bb, classify)
+        # paths that return the map *unchanged* (no wrapper assigned to the map local on the way) — detect via: no LimitedMapView/PrefixedMapView block dominates and reaches
+        lim_blocks = {c.bb for c in lim} | set(pre_blocks)
+        plain = an.reach_avoiding(b, None, lim_blocks, {bb}) is not None
+        if plain and not (complete and vals and all(v.get(("SHOW_NONE",)) is True for v in vals)):
+            # a path without any wrapper reaches this return: every such path must have seen safelist == None
+            unw, comp2 = _psa.valuations_at(b, bb, classify, avoid=tuple(lim_blocks))
+            if not (comp2 and unw and all(v.get(("SHOW_NONE",)) is True for v in unw)):
+                okw = False
+    if rets and okw:
+        r.ok(wrapped_key)
+    elif rets:
+        r.violate(wrapped_key, "ForwardedModule::forwarded_map can return the map unwrapped although a show list is present (e.g. when it is empty): `@forward \"m\" show $a` has an "
+                  "empty function/mixin show list, which must hide every function and mixin, not expose them all", b.loc())
     # ForwardedModule::new passes the rule's lists
     fn = prog.one("ForwardedModule::new")
     fm = [c for c in fn.calls() if (c.name() or "").endswith("ForwardedModule::forwarded_map")]
